@@ -1476,3 +1476,42 @@ def _from_utf8(I, ci, b):
             return err(Adt('Utf8Error', 0, []))
         return ok(StringObj([ord(c) for c in s]) if ci.selfty == 'String' else Str([ord(c) for c in s]))
     raise Unsupported('from_utf8 on symbolic bytes')
+
+
+# ------------------------------------------------------------------ hashing (DefaultHasher has fixed keys: a pure function)
+@model('DefaultHasher::new', 'DefaultHasher::default', 'RandomState::new')
+def _hasher_new(I, ci):
+    return Opaque('Hasher', [])
+
+
+@model('<Hash>::hash')
+def _hash(I, ci, v, h):
+    pv = peel(v)
+    st = peel(h).state
+    if isinstance(pv, (Str, StringObj)):
+        st.append(('s', tuple(pv.chars)))
+    elif isinstance(pv, (int, z3.ArithRef)):
+        st.append(('i', pv))
+    else:
+        raise Unsupported('hash of %r' % (pv,))
+    return UNIT
+
+
+@model('<Hasher>::finish', 'DefaultHasher::finish')
+def _finish(I, ci, h):
+    """SipHash of the written data: an uninterpreted u64, equal for (syntactically) equal data within a path"""
+    w = W(I)
+    st = peel(h).state
+    key = []
+    for kind, x in st:
+        if kind == 's':
+            key.append(tuple(c if isinstance(c, int) else ('e', c.get_id()) for c in x))
+        else:
+            key.append(x if isinstance(x, int) else ('e', x.get_id()))
+    key = tuple(key)
+    cache = w.__dict__.setdefault('_hashes', {})
+    hit = cache.get(key)
+    if hit is None:
+        hit = (list(st), w.fresh_int('siphash', 0, 2**64 - 1))
+        cache[key] = hit
+    return hit[1]
